@@ -189,8 +189,12 @@ func (r *c13run) client(ci int, nops int, wg *sync.WaitGroup) {
 			r.note(ci, "submit "+kind, sr.UnitID, "acked")
 		case x < 50:
 			id := u.id
+			alias := false
 			if x < 26 {
 				id = "NoSuchUn"
+			} else if x < 30 {
+				// a non-canonical spelling of a known unit's id: a directory has exactly one id, this one is unknown
+				id, alias = []string{u.id + "/", "./" + u.id, u.id + "/.", "x/../" + u.id}[rng.Intn(4)], true
 			}
 			m, et, err := statusOf(d, id, 30*time.Second)
 			if err != nil {
@@ -199,7 +203,7 @@ func (r *c13run) client(ci int, nops int, wg *sync.WaitGroup) {
 				continue
 			}
 			r.note(ci, "status", id, fmt.Sprintf("%v %s", m["StateName"], et))
-			if m != nil {
+			if m != nil && !alias {
 				r.checkReport(last, ci, id, m)
 				r.mu.Lock()
 				rel := u.released && id == u.id
@@ -207,6 +211,9 @@ func (r *c13run) client(ci int, nops int, wg *sync.WaitGroup) {
 				_ = rel
 			} else if id == "NoSuchUn" && !strings.Contains(et, "unknown work unit") {
 				r.viol("C13:unknown-unit-answer", fmt.Sprintf("status of an unknown unit answered %q", et))
+			}
+			if alias && (m != nil || !strings.Contains(et, "unknown work unit")) {
+				r.viol("C13:alias-of-unit-known", fmt.Sprintf("'work status %s' (a non-canonical name of unit %s) was answered %v %q instead of 'unknown work unit'", id, u.id, m["StateName"], et))
 			}
 		case x < 60:
 			lr, err := simpleCmd(d, "work list", 30*time.Second)
